@@ -8,6 +8,7 @@ import (
 	"os"
 	"runtime"
 	"runtime/debug"
+	"runtime/pprof"
 	"sort"
 	"strconv"
 	"syscall"
@@ -126,6 +127,11 @@ func TestSim(t *testing.T) {
 	}
 	runtime.GOMAXPROCS(int(envU64("VSIM_PROCS", 1)))
 	debug.SetGCPercent(-1)
+	if pf := os.Getenv("VSIM_CPUPROFILE"); pf != "" {
+		f, _ := os.Create(pf)
+		pprof.StartCPUProfile(f)
+		defer pprof.StopCPUProfile()
+	}
 	synctest.Test(t, func(t *testing.T) {
 		switch mode {
 		case "explore":
@@ -137,6 +143,9 @@ func TestSim(t *testing.T) {
 		default:
 			fmt.Fprintln(os.Stderr, "bad VSIM_MODE")
 			os.Exit(2)
+		}
+		if os.Getenv("VSIM_CPUPROFILE") != "" {
+			pprof.StopCPUProfile()
 		}
 		os.Exit(0)
 	})
